@@ -47,7 +47,7 @@ type allocCase struct {
 	Ops     []allocOp      `json:"ops"`
 }
 
-var allocClusterOpts = vw.ClusterOpts{MinPools: 1, MaxPools: 5, MaxAtomsPerPool: 3, BigAtoms: true, Namespaces: 2, Alloc: true}
+var allocClusterOpts = vw.ClusterOpts{MinPools: 1, MaxPools: 5, MaxAtomsPerPool: 3, BigAtoms: true, Namespaces: 2, Alloc: true, Overlap: true}
 
 func genPoolEdit(rt *rapid.T, cur vw.ClusterSpec) vw.ClusterSpec {
 	n := vw.ClusterSpec{Namespaces: cur.Namespaces}
@@ -429,6 +429,7 @@ func (r *allocRun) svcObj(i int) *v1.Service { return r.svcs[i].Object(i) }
 func (r *allocRun) setPools(cl vw.ClusterSpec) (*vw.Violation, bool) {
 	cfg, err := verifcfg.Config(cl, config.DontValidate)
 	if err != nil {
+		r.tr.Class("configuration-rejected")
 		return nil, false // edit produced an invalid configuration: the reconciler would not deliver it
 	}
 	r.a.SetPools(cfg.Pools)
